@@ -70,12 +70,12 @@ theorem cloLoop_eq (w : Nat) (hw : 1 ≤ w) : ∀ f x res, x < 2^w → w - Spec.
 
 /-! ## countr_zero, countr_one -/
 
-theorem testBit_ok (w x r : Nat) (hw31 : w < 2^31) (hr : r < w) :
+theorem testBit_ok (w x r : Nat) (hr : r < w) :
     testBit w x (r % 2^w) = .ok (x.testBit r) := by
   have hlt : r < 2^w := Nat.lt_trans hr Nat.lt_two_pow_self
   rw [Nat.mod_eq_of_lt hlt]
   unfold testBit
-  rw [bitPosPre_ok w r hw31 hr, oneShl_ok w r hr]
+  rw [bitPosPre_ok w r hr, oneShl_ok w r hr]
   simp only [Bool.not_true, Bool.false_eq_true, if_false, ok_bind]
   have hl : x &&& 2^r < 2^w :=
     Nat.lt_of_le_of_lt Nat.and_le_right (Nat.pow_lt_pow_right (by decide) hr)
@@ -88,7 +88,7 @@ theorem testBit_ok (w x r : Nat) (hw31 : w < 2^31) (hr : r < w) :
   · have : ¬ (x &&& 2^r = 0) := by rw [h, hb]; simp
     simp [this]
 
-theorem ctzLoop_eq (w x : Nat) (hw31 : w < 2^31) : ∀ f n r, r + n = w → n < f →
+theorem ctzLoop_eq (w x : Nat) : ∀ f n r, r + n = w → n < f →
     ctzLoop w x f r = .ok (((List.range' r n).find? (fun i => x.testBit i)).getD w) := by
   intro f
   induction f with
@@ -103,14 +103,14 @@ theorem ctzLoop_eq (w x : Nat) (hw31 : w < 2^31) : ∀ f n r, r + n = w → n < 
     | succ n =>
       have hne : (r != w) = true := by simp; omega
       simp only [hne, if_true]
-      rw [testBit_ok w x r hw31 (by omega)]
+      rw [testBit_ok w x r (by omega)]
       simp only [ok_bind, List.range'_succ, List.find?_cons]
       cases hb : x.testBit r
       · simp only [Bool.false_eq_true, if_false]
         rw [ih n (r + 1) (by omega) (by omega)]
       · simp
 
-theorem ctoLoop_eq (w x : Nat) (hw31 : w < 2^31) : ∀ f n r, r + n = w → n < f →
+theorem ctoLoop_eq (w x : Nat) : ∀ f n r, r + n = w → n < f →
     ctoLoop w x f r = .ok (((List.range' r n).find? (fun i => !x.testBit i)).getD w) := by
   intro f
   induction f with
@@ -125,7 +125,7 @@ theorem ctoLoop_eq (w x : Nat) (hw31 : w < 2^31) : ∀ f n r, r + n = w → n < 
     | succ n =>
       have hne : (r != w) = true := by simp; omega
       simp only [hne, if_true]
-      rw [testBit_ok w x r hw31 (by omega)]
+      rw [testBit_ok w x r (by omega)]
       simp only [ok_bind, List.range'_succ, List.find?_cons]
       cases hb : x.testBit r
       · simp
